@@ -4,7 +4,7 @@ LEVEL = "exploration"
 HERE = os.path.dirname(os.path.abspath(__file__))
 ASSUMPTIONS = [
     "oracle: OpenSSL 3 EVP digests and HMAC() (self-tested at start-up on FIPS 180-4 / RFC 1321 / RFC 4231 / RFC 2202 vectors); "
-    "PBKDF2 = RFC 8018 loop written in the harness over OpenSSL HMAC (self-tested on RFC 7914 vectors, cross-checked per case with "
+    "PBKDF2 = RFC 8018 loop written in the harness over OpenSSL HMAC (self-tested on the RFC 7914 c=1 vector and two published RFC 6070-style SHA-256 vectors, cross-checked per case with "
     "PKCS5_PBKDF2_HMAC); CRC32C = bit-serial GF(2) division written in the harness (self-tested on the CRC-32C check value)",
     "the library selects its SHA-256 / CRC32C code path at run time (SHA-NI and SSE4.2 on this host); path equality is C03's subject",
     "PBKDF2 iteration count c >= 1 (interface precondition); messages >= 2^61 bytes are out of reach",
